@@ -287,7 +287,12 @@ def classify(run, key, status, known):
                 restore()
             if entries is not None and group_status(entries)[0] in ("ok",):
                 return "known:F3"
-    # 2. Monte-Carlo arithmetic: is the disagreement within the reach of rounding noise?
+    # 2. magnitude guard: some intermediate of e (or of a symbolic partial handed out in this run) is so
+    #    large or so small at this point that a square or a product of two of them leaves the double range
+    #    -- silent under/overflow, outside the property's "no intermediate leaves the double range" proviso
+    if _extreme_magnitudes(run, key):
+        return "discard:extreme-magnitude"
+    # 3. Monte-Carlo arithmetic: is the disagreement within the reach of rounding noise?
     entries0 = run_entries = None
     try:
         base_entries, _ = _rerun_group(scn, key)
@@ -333,6 +338,44 @@ def classify(run, key, status, known):
     return "violation"
 
 
+def _subtrees(tree, acc):
+    if not isinstance(tree, tuple) or tree in acc:
+        return
+    acc.append(tree)
+    op = tree[0]
+    if op in ("Variable", "Constant", "Unwalkable"):
+        return
+    for part in tree[1:]:
+        if isinstance(part, tuple) and part and isinstance(part[0], str) and part[0][:1].isupper():
+            _subtrees(part, acc)
+        elif isinstance(part, tuple):
+            for sub in part:
+                if isinstance(sub, tuple):
+                    _subtrees(sub, acc)
+
+
+def _extreme(v):
+    return v != 0 and (abs(v) > 1e100 or abs(v) < 1e-100)
+
+
+def _extreme_magnitudes(run, key):
+    etree, v, p = key
+    coords = run.scn["points"][p]
+    trees = [etree]
+    _, ag, _ = collect(run)
+    for (et, var), entries in ag.items():
+        if et == etree and var == v:
+            trees.extend(e[1] for e in entries if isinstance(e[1], tuple))
+    subs = []
+    for t in trees:
+        _subtrees(t, subs)
+    for t in subs[:400]:
+        r = _eval_tree(t, coords)
+        if r[0] == "num" and _extreme(r[1]):
+            return True
+    return False
+
+
 def _eval_tree(tree, coords):
     try:
         v = S.build_tree(tree).at(S.make_point(coords))
@@ -376,7 +419,18 @@ def classify_asx(run, key, entries, known):
                 continue
             both += 1
             if abs(a[1] - b[1]) > 1e-6 * max(1.0, abs(a[1]), abs(b[1])):
-                # rounding-sensitive?  be conservative: only a gross disagreement is a new violation
-                if abs(a[1] - b[1]) > 1e-3 * max(1.0, abs(a[1]), abs(b[1])):
+                # rounding-sensitive?  be conservative: only a gross disagreement (relative to the largest
+                # intermediate of either expression at this point) is a new violation
+                subs = []
+                _subtrees(ta, subs)
+                _subtrees(tb, subs)
+                scale = 1.0
+                for t in subs[:400]:
+                    r = _eval_tree(t, coords)
+                    if r[0] == "num" and r[1] == r[1] and abs(r[1]) != float("inf"):
+                        scale = max(scale, abs(r[1]))
+                if _extreme(scale):
+                    continue
+                if abs(a[1] - b[1]) > 1e-3 * max(scale, abs(a[1]), abs(b[1])):
                     return f"values differ too: {a[1]!r} vs {b[1]!r} at {coords}"
     return "known:F2"
